@@ -19,9 +19,9 @@ import (
 
 type corruption struct {
 	Name  string
-	MinH  uint64                       // first height it applies to
-	MaxH  uint64                       // last height it applies to (0: any)
-	Flags func(H uint64) []string      // clauses violated (declared by construction)
+	MinH  uint64                  // first height it applies to
+	MaxH  uint64                  // last height it applies to (0: any)
+	Flags func(H uint64) []string // clauses violated (declared by construction)
 	Apply func(w *world, b *types.Block) error
 	Probe bool // malformed input outside the clause vector (nil fields): expected to be refused, nothing else is predicted
 }
@@ -359,6 +359,12 @@ var catalogue = []corruption{
 		setCommit(b, pcs)
 		return nil
 	}},
+	{Name: "lastcommit/nil-signature", MinH: 2, Flags: fl("lastCommit"), Apply: func(w *world, b *types.Block) error {
+		pcs := copyPrecommits(b)
+		pcs[nonNil(pcs)[0]].Signature = nil
+		setCommit(b, pcs)
+		return nil
+	}},
 	{Name: "lastcommit/all-nil", MinH: 2, Flags: fl("ev", "evFull", "lastCommit"), Apply: func(w *world, b *types.Block) error {
 		setCommit(b, make([]*types.Vote, len(b.LastCommit.Precommits)))
 		return nil
@@ -503,6 +509,31 @@ var catalogue = []corruption{
 		f.Proposer = nil
 		return nil
 	})},
+	{Name: "malformed/nil-lastcommit", MinH: 2, Probe: true, Flags: fl("basic"), Apply: func(w *world, b *types.Block) error {
+		b.LastCommit = nil
+		return nil
+	}},
+	{Name: "recover/flag-hides-validators-hash", MinH: 1, Probe: true, Flags: fl("valHash"), Apply: func(w *world, b *types.Block) error {
+		// Header.Recover is not part of the block hash and switches the ValidatorsHash comparison off;
+		// the receiver drops a block whose flag differs from its own recover state
+		b.Recover = 1
+		b.ValidatorsHash = flipHash(b.ValidatorsHash)
+		return nil
+	}},
+	{Name: "malformed/nil-header", MinH: 1, Probe: true, Flags: fl("basic"), Apply: func(w *world, b *types.Block) error {
+		b.Header = nil
+		return nil
+	}},
+	{Name: "malformed/nil-data", MinH: 1, Probe: true, Flags: fl("basic"), Apply: func(w *world, b *types.Block) error {
+		b.Data = nil
+		return nil
+	}},
+	{Name: "malformed/dve-nil-pubkey", MinH: 2, Probe: true, Flags: fl("ev", "evFull"), Apply: func(w *world, b *types.Block) error {
+		e := w.equivocation(w.byz, w.byz, w.H-1)
+		e.PubKey = nil
+		setEvidence(b, append(append([]types.Evidence{}, b.Evidence.Evidence...), e))
+		return nil
+	}},
 	{Name: "malformed/dve-nil-vote", MinH: 2, Probe: true, Flags: fl("ev", "evFull"), Apply: func(w *world, b *types.Block) error {
 		e := w.equivocation(w.byz, w.byz, w.H-1)
 		e.VoteB = nil
